@@ -8,7 +8,6 @@ modes
   child <fd> <tracker pid> <sendlog> : a stand-in for a loky / pool worker: shares the tracker pipe as loky's spawn does,
                                     unpickles what the parent pickled (real load_temporary_memmap + finalizers), keeps or
                                     drops the memmaps on command
-  e2e <scratch> <scenario json>   : end-to-end scenarios with real workers (see run_e2e)
 Every request a process hands to `ResourceTracker._send` is appended to its <sendlog> (one JSON line, flushed) before
 it is written to the pipe.
 """
@@ -291,9 +290,5 @@ if __name__ == "__main__":
         child_main(int(sys.argv[2]), int(sys.argv[3]), sys.argv[4])
     elif mode == "parent":
         parent_main(sys.argv[2], sys.argv[3])
-    elif mode == "e2e":
-        from c20_client_e2e import run_e2e  # noqa
-
-        run_e2e(sys.argv[2], sys.argv[3])
     else:
         raise SystemExit("mode?")
